@@ -336,6 +336,10 @@ def subscription_violations(sg, rng):
             ("single_root", f"subscription A {{ {sel(a)} }}\nsubscription B {{ {sel(a)} x2: {sel(b2)} }}"),
             ("single_root", f"subscription {{ ...R }}\nfragment R on Subscription {{ {sel(a)} {sel(b2)} }}"),
             ("single_root", f"subscription {{ ... on Subscription {{ {sel(a)} }} {sel(b2)} }}"),
+            # the same field under two response keys is two root fields
+            ("single_root", f"subscription {{ a1: {sel(a)} a2: {sel(a)} }}"),
+            ("single_root", f"subscription {{ {sel(a)} later: {sel(a)} }}"),
+            ("single_root", f"subscription {{ ...Ra }}\nfragment Ra on Subscription {{ a1: {sel(a)} ... on Subscription {{ a2: {sel(a)} }} }}"),
             ("single_root_ok_repeated", f"subscription {{ {sel(a)} {sel(a)} }}"),
             ("single_root_ok", f"subscription {{ {sel(a)} }}"),
             ("single_root_ok_fragment", f"subscription {{ ...R ...R }}\nfragment R on Subscription {{ {sel(a)} }}"),
